@@ -193,6 +193,23 @@ def _known_findings():
         return json.load(fh)
 
 
+def _assumed_clauses(con):
+    out = []
+
+    def doc(f):
+        d = (getattr(f, "__doc__", None) or "").strip().split("\n\n")[0]
+        return " ".join(d.split())[:300]
+
+    if con.entry is not None:
+        out.append("entry (assumed when the function is verified; not an obligation of its call sites): " + (doc(con.entry) or "see the contract"))
+    if con.assume_post is not None:
+        out.append("assume_post (exported to callers, not proved): " + (doc(con.assume_post) or "see the contract"))
+    if con.may_raise_internal:
+        out.append("may_raise_internal: " + ", ".join(e.__name__ for e in con.may_raise_internal) +
+                   " may be raised by the function; its callers' contracts do not follow that path")
+    return out
+
+
 def run_property(pid: str, tier: str, seed: int) -> int:
     t_start = time.time()
     missing = solve.solvers_present()
@@ -449,7 +466,9 @@ def run_property(pid: str, tier: str, seed: int) -> int:
             functions_under_contract=[
                 dict(function=r.con.qual, source_sha=_sha(r.con), paths=r.paths, outcomes=r.outcomes,
                      obligations=len(r.obligations), inlined=sorted(r.inlined),
-                     callee_contracts=sorted(r.callees), symexec_s=round(r.seconds, 3))
+                     callee_contracts=sorted(r.callees), symexec_s=round(r.seconds, 3),
+                     # clauses of this contract that are taken, not proved
+                     assumed_clauses=_assumed_clauses(r.con), note=r.con.note or "")
                 for r in fn_reports],
             assumed_contracts=[dict(function=c.qual, note=c.note) for c in assumed],
             lemmas=sorted({o.name.rsplit("/path", 1)[0] for o in lemma_obs}),
